@@ -129,6 +129,19 @@ CHECKS["C04"] = (
     "DESIGN.md section 3 / C04",
 )
 
+CHECKS["C16"] = (
+    "generated call programs x option subsets x injected faults (armed bomb property, corrupted payloads) vs probe isolation oracle and a reference serializer",
+    "Seeded Hypothesis search over programs of (de)serialization calls with every option subset, in which any "
+    "call may fail at a drawn nested object (a property whose (de)serialization raises while armed, a payload "
+    "corrupted at a drawn path); after every call a default serialization of a probe tree (key order included) "
+    "and a default deserialization of a reference payload must equal the references taken at the start, and "
+    "the output of every successful serialization is compared mapping by mapping, key order included, with an "
+    "independent reference serializer for the given options. Fault-injection style exploration, bounded.",
+    "Trusts Hypothesis and the reference serializer of pbt/props/c16.py; AST_TEST output itself is not modelled; "
+    "yaml.dump orders keys itself, so order is compared for dict/json/msgpack only.",
+    "DESIGN.md section 3 / C16",
+)
+
 NOT_YET = "check not built yet in this snapshot (see DESIGN.md section 9 build order); nothing is claimed"
 
 
